@@ -728,8 +728,14 @@ class Emit(Elaboratable):
         for hop in range(s.via):
             key = (s.callee, hop)
             if key not in self.alias:
-                al = Method.like(target, name=f"M{s.callee}_alias{hop}")
-                al.provide(target)
+                if (s.callee + hop) % 2:
+                    from transactron import Methods
+                    col = Methods(1, name=f"M{s.callee}_aliases{hop}", i=target.layout_in, o=target.layout_out)
+                    col.provide([target])
+                    al = col[0]
+                else:
+                    al = Method.like(target, name=f"M{s.callee}_alias{hop}")
+                    al.provide(target)
                 self.alias[key] = al
             target = self.alias[key]
         return target
@@ -860,10 +866,31 @@ class Emit(Elaboratable):
                     vi, op = md["validate"]
                     ref = self.ins[vi]
                     kw["validate_arguments"] = {"eq": (lambda x: x == ref), "ne": (lambda x: x != ref), "bit0": (lambda x: x[0] == ref[0])}[op]
-                out = Signal(4)
-                with me.body(m, ready=ready_of(b), out=out, **kw) as arg:
-                    m.d.top_comb += out.eq((arg.x + b.idx + 1) if md["has_in"] else (b.idx + 1))
-                    stmts(b, b.stmts, arg)
+                style = (b.idx + D.nm) % 3  # 0: Method.body() context manager, 1: def_method(arg), 2: def_method(field keyword parameters)
+                if style == 0:
+                    out = Signal(4)
+                    with me.body(m, ready=ready_of(b), out=out, **kw) as arg:
+                        m.d.top_comb += out.eq((arg.x + b.idx + 1) if md["has_in"] else (b.idx + 1))
+                        stmts(b, b.stmts, arg)
+                elif style == 1 or not md["has_in"]:
+                    from transactron import def_method
+
+                    @def_method(m, me, ready=ready_of(b), **kw)
+                    def _(arg):
+                        stmts(b, b.stmts, arg)
+                        return {"y": (arg.x + b.idx + 1) if md["has_in"] else (b.idx + 1)}
+                else:
+                    from transactron import def_method
+
+                    class _A:  # the body statements take the argument as an object with attribute x
+                        pass
+
+                    @def_method(m, me, ready=ready_of(b), **kw)
+                    def _(x):
+                        a = _A()
+                        a.x = x
+                        stmts(b, b.stmts, a)
+                        return {"y": x + b.idx + 1}
 
         wrap = getattr(D, "modwrap", {})
         filler = Signal(name="modwrap_filler")
